@@ -400,8 +400,19 @@ fn exact_total(case: &VmCase) -> Option<u128> {
 fn random_cases(e: &mut Eng, focus: Focus, n: u64, opts: JudgeOpts, pools: &[usize], kind: &str) {
     let mut r = Rng::new(crate::rng::mix(e.args.seed.wrapping_mul(1_000_003).wrapping_add(e.args.shard as u64), focus as u64 + 17));
     for i in 0..n {
-        let mut case = vmgen::random_case(&mut r, focus);
-        if focus == Focus::Gas {
+        let mut case = if focus == Focus::Gas && i % 3 == 0 { vmgen::gas_probe(&mut r) } else { vmgen::random_case(&mut r, focus) };
+        let probe = focus == Focus::Gas && i % 3 == 0;
+        if probe {
+            // keep the probe's cost table; place the limit relative to the exact total (or leave u64::MAX)
+            let total = exact_total(&case);
+            case.limit = match (r.below(6), total) {
+                (0, Some(t)) if t <= u64::MAX as u128 => t as u64,
+                (1, Some(t)) if (1..=u64::MAX as u128).contains(&t) => t as u64 - 1,
+                (2, Some(t)) if t < u64::MAX as u128 => t as u64 + 1,
+                (3, Some(t)) if t >= 4 && t <= u64::MAX as u128 => t as u64 - 1 - r.below(3) as u64,
+                _ => u64::MAX,
+            };
+        } else if focus == Focus::Gas {
             // first fix the cost function, then place the limit relative to the exact total
             vmgen::gas_setup(&mut r, &mut case, None);
             let limit = case.limit;
